@@ -249,19 +249,23 @@ def _inversion(applied, devname, vname):
     return None
 
 
-def _published_before_only(stack, devname, vname):
+def _published_before_only(stack, devname, vname, applied=None):
     """True iff the last setBLOBVector of this vector was routed before some client's enableBLOB Only
     for the device reached the router (the INDI enableBLOB race: nobody could receive that update)."""
     last_set = None
     last_only = None
     first_def = None
-    asked = False
+    # the first definition of the device THIS client applied (identified by its emission stamp): from there on it knows the
+    # device and asks for its BLOBs at once
+    first_stamp = None
+    for v in applied or ():
+        if v[0].startswith("def") and dict(v[1]).get("device") == devname:
+            first_stamp = _stamp(v)
+            break
     for i, (origin, sname, v) in enumerate(stack.router_log):
         a = dict(v[1])
-        if origin == "client" and v[0] == "getProperties":
-            asked = True
-        if asked and first_def is None and origin == "driver" and v[0].startswith("def") and a.get("device") == devname:
-            first_def = i  # from here on the clients know the device and ask for its BLOBs at once
+        if first_def is None and first_stamp is not None and origin == "driver" and v[0].startswith("def") and _stamp(v) == first_stamp:
+            first_def = i
         if v[0] == "setBLOBVector" and a.get("device") == devname and a.get("name") == vname:
             last_set = i
         if v[0] == "enableBLOB" and a.get("device") == devname and v[2] == "Only":
@@ -321,7 +325,7 @@ def compare_view(sim, who, lib_client, model, scopes, stack, devname, truth, vio
             inv = _inversion(applied, devname, vname)
             if inv:
                 f2["cross_connection_inversion"] = True
-            elif tv["kind"] == "BLOB" and _published_before_only(stack, devname, vname):
+            elif tv["kind"] == "BLOB" and _published_before_only(stack, devname, vname, applied):
                 f2["published_before_enableblob_only"] = True
             viol.append({"clause": "C01.state", "detail": f"{ctx}: {vname} state {mv.state!r} but driver has {tv['state']!r}"
                          + (f"; the client applied this vector's messages out of emission order: {inv}" if inv else ""), "facts": f2})
@@ -344,7 +348,7 @@ def compare_view(sim, who, lib_client, model, scopes, stack, devname, truth, vio
                     inv = _inversion(applied, devname, vname)
                     if inv:
                         f2["cross_connection_inversion"] = True
-                    elif _published_before_only(stack, devname, vname) or not _ever_published(stack, devname, vname):
+                    elif _published_before_only(stack, devname, vname, applied) or not _ever_published(stack, devname, vname):
                         f2["published_before_enableblob_only"] = True
                     elif _last_def_answers_getproperties(stack, devname, vname):
                         f2["redefined_by_getproperties"] = True
